@@ -13,8 +13,9 @@
 (*   soundness         Secure => Entails3                                     *)
 (*   completeness      prescribed proof / hickory's own server's proof of a   *)
 (*                     negative or wildcard response, if it is a full         *)
-(*                     RFC 5155 8 proof => Secure (an Opt-Out proof for       *)
-(*                     something else than DS carries no such demand)         *)
+(*                     RFC 5155 8 proof => Secure (a proof resting on Opt-Out *)
+(*                     records for something else than DS carries no such     *)
+(*                     demand)                                                *)
 EXTENDS Nsec3Ops, TLC, Json, IOUtils, FiniteSets
 
 Rec == ndJsonDeserialize(IOEnv.TRACE)
@@ -65,7 +66,9 @@ CompleteE(ev) ==
     CASE ev.origin = "prescribed" -> (EntE(ev) /\ Within(ev)) => ev.verdict = "Secure"
       [] ev.origin = "server" /\ SkE(ev) # "none" /\ Within(ev) ->
             IF EntE(ev) \/ OpenE(ev) THEN ev.verdict = "Secure" /\ FullOf(ev) = "Secure"
-            ELSE OnlyOptOutMissing(ev)
+            \* as Nsec3.C09_CompleteOptOut: only an Opt-Out record can keep a genuine proof from being a
+            \* full one (Opt-Out may hide the empty non-terminals and delegations a full proof needs)
+            ELSE \E r \in PofE(ev) : r.optout
       [] OTHER -> TRUE
 OkE(ev) == ev.verdict # "PANIC" /\ LimitsE(ev) /\ SoundE(ev) /\ CompleteE(ev)
 
